@@ -77,7 +77,7 @@ func h07m(thorough bool) {
 	worlds := [][]int{{1}}
 	if thorough {
 		t = []float64{0.7, 0.8}[vxChoice(2)]
-		worlds = [][]int{{0}, {1}, {0, 1}, {2, 3}}
+		worlds = [][]int{{1}, {0, 1}}
 	}
 	docs := worlds[vxChoice(len(worlds))]
 	c := vxBuildWorld(t, docs...)
@@ -86,7 +86,7 @@ func h07m(thorough bool) {
 	vxAssume(len(X) >= c.q)
 	pat := 0
 	if thorough {
-		pat = vxChoice(3)
+		pat = []int{0, 2}[vxChoice(2)]
 	}
 	xw, xb := vxEmbed(X, 0, 0, pat)
 	if len(xb) > 0 {
@@ -97,8 +97,7 @@ func h07m(thorough bool) {
 	a, b := []int{0, 3}[vxChoice(2)], vxChoice(2)
 	plines := 1
 	if thorough {
-		a, b = vxChoice(4), vxChoice(4)
-		plines = vxChoice(2) + 1
+		a, b = []int{0, 1, 3}[vxChoice(3)], vxChoice(2)
 	}
 	vxAssume(a+b > 0) // the prefix block occupies 1 or 2 lines and ends with a newline
 	var pre []byte
